@@ -72,7 +72,7 @@ PROPS = {
         "lean_support": ["WP.Props.C02"],
         "families": [("hist", 10000, 500000), ("step", 20000, 1000000)],
         "history": True,
-        "rule": "hist: random histories (40-100 ops after each `H init`) on a real Whirlpool (fixed / dynamic / mixed tick arrays; Anchor or Pinocchio liquidity path per op; fee accumulators started anywhere in u128 incl. just below wrap-around); the whole state digest is compared with the Lean model after every op and the implementation-side oracles (hist_oracle.rs) run after every op; non-trivial = a successful op; distinct by hash of (op line, clock)",
+        "rule": "hist op xrew: set_reward_emissions, collect_reward / collect_reward_v2 and collect_protocol_fees / _v2 executed through the REAL entrypoint on a fixture of the current state (right key / stranger / no signature; emission rates around the one-day vault bound; reward mints with transfer fees): result, amounts, what stays owed and the settled pool state compared with the Lean model and the manager-level rule; hist: random histories (40-100 ops after each `H init`) on a real Whirlpool (fixed / dynamic / mixed tick arrays; Anchor or Pinocchio liquidity path per op; fee accumulators started anywhere in u128 incl. just below wrap-around); the whole state digest is compared with the Lean model after every op and the implementation-side oracles (hist_oracle.rs) run after every op; non-trivial = a successful op; distinct by hash of (op line, clock)",
         "trusted": ["per-step trace of the real swap loop comes from the `verif` hook in swap_manager.rs; the emitted Traded event is not decoded here"],
     },
     "C07": {
@@ -88,7 +88,7 @@ PROPS = {
         "lean_support": ["WP.Props.C07", "WP.Props.GrowthPath", "WP.Props.Reach", "WP.Props.SwapPath", "WP.Props.FeePath", "WP.Props.PathBase"],
         "families": [("hist", 10000, 500000)],
         "history": True,
-        "rule": "hist: random histories (40-100 ops after each `H init`) on a real Whirlpool (fixed / dynamic / mixed tick arrays; Anchor or Pinocchio liquidity path per op; fee accumulators started anywhere in u128 incl. just below wrap-around); the whole state digest is compared with the Lean model after every op and the implementation-side oracles (hist_oracle.rs) run after every op; non-trivial = a successful op; distinct by hash of (op line, clock)",
+        "rule": "hist op xrew: set_reward_emissions, collect_reward / collect_reward_v2 and collect_protocol_fees / _v2 executed through the REAL entrypoint on a fixture of the current state (right key / stranger / no signature; emission rates around the one-day vault bound; reward mints with transfer fees): result, amounts, what stays owed and the settled pool state compared with the Lean model and the manager-level rule; hist: random histories (40-100 ops after each `H init`) on a real Whirlpool (fixed / dynamic / mixed tick arrays; Anchor or Pinocchio liquidity path per op; fee accumulators started anywhere in u128 incl. just below wrap-around); the whole state digest is compared with the Lean model after every op and the implementation-side oracles (hist_oracle.rs) run after every op; non-trivial = a successful op; distinct by hash of (op line, clock)",
         "trusted": ["pro-rata/never-inflated along histories is checked by the reward shadow ledger of the history harness; reward-vault balances are harness bookkeeping (no token program is executed)"],
     },
     "C04": {
